@@ -323,11 +323,25 @@ func (s *Store) Instantiate(
 	sys *internalsys.Context,
 	typeIDs []FunctionTypeID,
 ) (*ModuleInstance, error) {
+	return s.InstantiateWithCodeCloser(ctx, module, name, sys, typeIDs, nil)
+}
+
+// InstantiateWithCodeCloser is like Instantiate, except it also sets ModuleInstance.CodeCloser
+// before the instance becomes visible to other goroutines via the store, e.g. Store.CloseWithExitCode.
+func (s *Store) InstantiateWithCodeCloser(
+	ctx context.Context,
+	module *Module,
+	name string,
+	sys *internalsys.Context,
+	typeIDs []FunctionTypeID,
+	codeCloser api.Closer,
+) (*ModuleInstance, error) {
 	// Instantiate the module and add it to the store so that other modules can import it.
 	m, err := s.instantiate(ctx, module, name, sys, typeIDs)
 	if err != nil {
 		return nil, err
 	}
+	m.CodeCloser = codeCloser
 
 	// Attach the close notifier before the module becomes visible to Store.CloseWithExitCode:
 	// otherwise a concurrent close of the store could miss the notification.
@@ -338,6 +352,7 @@ func (s *Store) Instantiate(
 	// Now that the instantiation is complete without error, add it.
 	if err = s.registerModule(m); err != nil {
 		m.CloseNotifier = nil // never visible to the caller: nothing to notify.
+		m.CodeCloser = nil    // the caller closes the code on error.
 		_ = m.Close(ctx)
 		return nil, err
 	}
